@@ -33,6 +33,13 @@ def rate_level(chk, core, rng, count):
         phase, fabric = kernel.FAB[fab]
         n = [1, 3, 20][i % 3]
         A = Rotation.random(n, random_state=int(rng.integers(1 << 30))).as_matrix()
+        if i % 4 == 3 and n >= 2:
+            # RELATED grains: consecutive grains that are images of one another under a symmetry of the SAMPLE frame (a
+            # symmetrised texture: half-turns about the external axes, axis permutations) - their entries agree up to
+            # signs / positions, yet they are different orientations with different rates
+            ext = [np.diag([-1.0, -1.0, 1.0]), np.diag([1.0, -1.0, -1.0]), np.diag([-1.0, 1.0, -1.0]), np.eye(3)[[1, 2, 0]], np.eye(3)[[2, 0, 1]]]
+            for g in range(1, n, 2):
+                A[g] = A[g - 1] @ ext[(i // 4 + g) % len(ext)]
         f = rng.random(n)
         f /= f.sum()
         L = layerb.FLOWS[["gen3d", "trace", "ss_xz", "pure_xy", "axi_c"][i % 5]]
